@@ -44,12 +44,36 @@ class _Sym:
     def __init__(self):
         self.reg = []  # (name, symbolic or concrete)
         self.path_tags = []
+        self.replaying = None  # list of [name, value] consumed in creation order (native replay)
+        self.window = None  # list of ints: every S.int is a solver-chosen *concrete* member of it (text-level harnesses)
+        self.float_menu = [0.0, 0.5, -1.5, 1e16, 1e-05]
 
     def reset(self):
         self.reg = []
         self.path_tags = []
 
+    def _next(self, name):
+        if not self.replaying:
+            raise RuntimeError(f"replay ran out of values at {name!r}")
+        n, v = self.replaying.pop(0)
+        if n != name:
+            raise RuntimeError(f"replay order mismatch: wanted {name!r}, recorded {n!r}")
+        self.reg.append((name, v))
+        return v
+
     def int(self, name, lo=None, hi=None):
+        if self.window is not None:
+            w = [x for x in self.window if (lo is None or x >= lo) and (hi is None or x <= hi)]
+            if lo is not None and hi is not None and not w:
+                w = list(range(lo, hi + 1))[:3]
+            win, self.window = self.window, None
+            try:
+                i = self.choice(name, len(w))
+            finally:
+                self.window = win
+            return w[i]
+        if self.replaying is not None:
+            return int(self._next(name))
         from crosshair.libimpl.builtinslib import SymbolicInt
         from crosshair.statespace import context_statespace
         from crosshair.tracers import NoTracing
@@ -65,6 +89,14 @@ class _Sym:
         return v
 
     def bool(self, name):
+        if self.window is not None:
+            win, self.window = self.window, None
+            try:
+                return self.choice(name, 2) == 1
+            finally:
+                self.window = win
+        if self.replaying is not None:
+            return bool(self._next(name))
         from crosshair.libimpl.builtinslib import SymbolicBool
         from crosshair.tracers import NoTracing
 
@@ -74,11 +106,21 @@ class _Sym:
         return v
 
     def float(self, name):
-        from crosshair.libimpl.builtinslib import make_float
+        if self.window is not None:
+            win, self.window = self.window, None
+            try:
+                return self.float_menu[self.choice(name, len(self.float_menu))]
+            finally:
+                self.window = win
+        if self.replaying is not None:
+            return float(self._next(name))
+        from crosshair.libimpl.builtinslib import RealBasedSymbolicFloat
         from crosshair.tracers import NoTracing
 
         with NoTracing():
-            v = make_float(name + "_" + str(len(self.reg)))
+            # finite floats modelled as reals (CrossHair's IEEE proxy makes every comparison a slow FP query);
+            # nan/inf are supplied through concrete menus where a harness wants them
+            v = RealBasedSymbolicFloat(name + "_" + str(len(self.reg)), float)
             self.reg.append((name, v))
         return v
 
@@ -105,12 +147,33 @@ class _Sym:
 S = _Sym()
 
 
-def native(fn, *a, **k):
+def replay_path(payload):
+    """Generic native replay of one explored path: re-run the same harness with S answering
+    from the recorded model values (creation order). payload: module, func, kwargs,
+    native_kwargs (merged into kwargs, e.g. to switch stubs off), ordered."""
+    import importlib
+
+    mod = importlib.import_module("vf.props." + payload["module"])
+    kw = dict(payload.get("kwargs", {}))
+    kw.update(payload.get("native_kwargs", {}))
+    if hasattr(mod, "setup_native"):
+        mod.setup_native()
+    harness = getattr(mod, payload["func"])(**kw)
+    S.replaying = [list(x) for x in payload["ordered"]]
+    try:
+        return native(harness, _keep_replay=True)
+    finally:
+        S.replaying = None
+
+
+def native(fn, *a, _keep_replay=False, **k):
     """Run a check function natively (replay): same verdict protocol as a harness path."""
     S.reset()
     try:
         res = fn(*a, **k)
     except Exception as ex:
+        if not _touches_repo(ex):
+            raise
         res = Fail("exception:" + type(ex).__name__, message=str(ex)[:300], trace=traceback.format_exc()[-1200:])
     return dict(reproduced=res is not True and res is not None, cls=getattr(res, "cls", None), detail=repr(res)[:1500])
 
@@ -135,7 +198,66 @@ def _quiet_format():
         return orig(o, spec)
 
     cc._PATCH_REGISTRATIONS[format] = quiet
+    # CrossHair replaces every dict(...) call by its ShellMutableMap proxy; jsonargparse reads
+    # `getattr(data, "__dict__", data)` (recreate_branches), which sees the proxy's internals.
+    # The harnesses use concrete dict keys only, so real dicts (holding symbolic values) are exact.
+    cc._PATCH_REGISTRATIONS.pop(dict, None)
     cc._vf_quiet = True
+
+
+def _touches_repo(exc):
+    """True if some frame of the exception's traceback runs code of the analysed jsonargparse tree."""
+    pkg = os.path.join(REPO, "jsonargparse") + os.sep
+    tb = exc.__traceback__
+    while tb is not None:
+        if tb.tb_frame.f_code.co_filename.startswith(pkg):
+            return True
+        tb = tb.tb_next
+    return False
+
+
+def _z3_to_py(val):
+    import z3
+
+    try:
+        if z3.is_true(val):
+            return True
+        if z3.is_false(val):
+            return False
+        if z3.is_int_value(val):
+            return val.as_long()
+        if z3.is_rational_value(val):
+            return val.numerator_as_long() / val.denominator_as_long()
+        if z3.is_fp(val):
+            if z3.is_fprm(val):
+                return str(val)
+            s = str(val)
+            if "NaN" in s:
+                return float("nan")
+            if "oo" in s:
+                return float("-inf") if s.startswith("-") else float("inf")
+            return float(eval(s.replace("*(2**", "*(2.0**"))) if "*" in s else float(s)
+        if z3.is_algebraic_value(val):
+            return float(val.approx(20).as_fraction())
+    except Exception:
+        pass
+    s = str(val)
+    try:
+        return int(s)
+    except ValueError:
+        return s
+
+
+def _floats_as_reals():
+    """Fix CrossHair's per-path choice of float model to the real-based one: the IEEE proxy turns
+    every comparison into a slow FP query and doubles the path tree; rounding is not the subject
+    of any check (stated in the evidence)."""
+    from crosshair.libimpl.builtinslib import ModelingDirector, RealBasedSymbolicFloat
+    from crosshair.statespace import context_statespace
+    from crosshair.tracers import NoTracing
+
+    with NoTracing():
+        context_statespace().extra(ModelingDirector).global_representations[float] = RealBasedSymbolicFloat
 
 
 def explore(harness, timeout=60.0, per_path_timeout=20.0, stop_on_first_fail=False, max_fail_samples=3):
@@ -174,14 +296,8 @@ def explore(harness, timeout=60.0, per_path_timeout=20.0, stop_on_first_fail=Fal
                         out[name] = repr(v)
                         continue
                     val = m.eval(var, model_completion=True)
-                    s = str(val)
-                    if s in ("True", "False"):
-                        val = s == "True"
-                    else:
-                        try:
-                            val = int(s)
-                        except ValueError:
-                            val = s
+                    val = _z3_to_py(val)
+                    out.setdefault("__order__", []).append([name, val])
                     if name in out:
                         k = 2
                         while f"{name}#{k}" in out:
@@ -195,6 +311,7 @@ def explore(harness, timeout=60.0, per_path_timeout=20.0, stop_on_first_fail=Fal
 
     def run(_ba):
         S.reset()
+        _floats_as_reals()
         return harness()
 
     def done(space, pre_args, args, ret, exc, stack):
@@ -206,6 +323,11 @@ def explore(harness, timeout=60.0, per_path_timeout=20.0, stop_on_first_fail=Fal
                 st["tags"][t] = st["tags"].get(t, 0) + 1
             if exc is not None:
                 tb = "".join(traceback.format_exception(type(exc), exc, exc.__traceback__)[-6:])
+                if not _touches_repo(exc):
+                    if len(st["errors"]) < 3:
+                        st["errors"].append("harness error (no jsonargparse frame in the traceback): " + type(exc).__name__ + ": " + str(exc)[:300] + "\n" + tb[-1200:])
+                    st["skipped"] += 1
+                    return False
                 ret = Fail("exception:" + type(exc).__name__, message=str(exc)[:300], trace=tb[-1500:])
             if ret is None:
                 st["skipped"] += 1
